@@ -446,12 +446,21 @@ impl<T> JoinAll<T> {
         r is Pending ==> final(self).wf() && exists|i: int| 0 <= i < final(self).fut@.len() && (#[trigger] final(self).fut@[i]) is Future,
         // a future that has completed is never polled again (the stub's precondition), and already-stored results stay
         forall|i: int| 0 <= i < old(self).fut@.len() ==> (old(self).fut@[i] is Result && r is Pending ==> #[trigger] final(self).fut@[i] == old(self).fut@[i]),
-//@insert after="let mut ready = true;"
-        let ghost mut wit: int = 0;
-//@insert after="Poll::Pending =>"
- { proof { wit = r9_n - 1; }
-//@insert after="ready = false"
- }
+//@insert loop_start=1
+            let ghost r9_prev = self.fut@; let ghost was_ready = ready; let ghost k0 = r9_n as int;
+//@insert loop_end=1
+            proof {
+                // only slot k0 can have changed in this iteration; a pending future seen earlier is still pending
+                assert(forall|w: int| 0 <= w < k0 ==> self.fut@[w] == r9_prev[w]);
+                if !ready {
+                    if !was_ready {
+                        let w0 = choose|w: int| 0 <= w < k0 && (#[trigger] r9_prev[w]) is Future;
+                        assert(self.fut@[w0] is Future);
+                    } else {
+                        assert(self.fut@[k0] is Future);
+                    }
+                }
+            }
 //@loop 1
         invariant
             r9_n <= self.fut@.len(),
@@ -460,7 +469,7 @@ impl<T> JoinAll<T> {
             forall|i: int| 0 <= i < r9_n ==> match #[trigger] self.fut@[i] { JoinFuture::Future(f) => !f.done(), JoinFuture::Result(o) => o is Some },
             forall|i: int| 0 <= i < r9_n ==> (old(self).fut@[i] is Result ==> #[trigger] self.fut@[i] == old(self).fut@[i]),
             ready ==> forall|i: int| 0 <= i < r9_n ==> (#[trigger] self.fut@[i]) is Result,
-            !ready ==> 0 <= wit < r9_n && self.fut@[wit] is Future,
+            !ready ==> exists|w: int| 0 <= w < r9_n && (#[trigger] self.fut@[w]) is Future,
         decreases self.fut@.len() - r9_n,
 //@loop 2
         invariant
